@@ -26,6 +26,9 @@ func genApl(r *Rng, tier string) *Enc {
 	if r.Chance(8) {
 		n = runtime.NumCPU() + r.Range(1, 20) // more rows than workers
 	}
+	if r.Chance(3) {
+		n = 3*runtime.NumCPU() + r.Range(1, 40) // more rows than any worker-sized buffer could hold
+	}
 	ncols := r.Range(0, 3)
 	if r.Chance(90) && ncols == 0 {
 		ncols = 1
@@ -36,6 +39,9 @@ func genApl(r *Rng, tier string) *Enc {
 		axis = 0
 	}
 	tag := r.Intn(5)
+	if r.Chance(25) {
+		tag = 8 // identity: a side-effect-free callback that returns the slice it was given
+	}
 	if axis == 0 {
 		tag = r.Intn(8)
 	}
